@@ -4,8 +4,10 @@ Lemmas about the unfrozen side of the trie model: the child maps (`find`, `upser
 `removeN`, `getN` do to it.  Core Lean only.
 -/
 import OccaProofs.Lemmas.TrieSpec
+import OccaProofs.Lemmas.TrieGen
 
 set_option linter.unusedSectionVars false
+set_option linter.unusedSimpArgs false
 
 namespace Occa.Trie
 open Node
@@ -262,14 +264,14 @@ theorem nestedRemove_flag (c : α) (cs : List α) (n : Node α) :
   obtain ⟨v, ks⟩ := n
   cases cs with
   | nil =>
-    simp only [nestedRemove]
+    simp only [nestedRemove, gen_eraseEmptiedChild, gen_eraseLeafChild]
     cases find c ks with
     | none => simp
     | some leaf =>
       simp only [Dead, val_mk, kids_mk, Bool.and_eq_true, Option.isNone_iff_eq_none, List.isEmpty_iff]
       exact id
   | cons c2 cs2 =>
-    simp only [nestedRemove]
+    simp only [nestedRemove, gen_eraseEmptiedChild, gen_eraseLeafChild]
     cases find c ks with
     | none => simp
     | some leaf =>
@@ -281,7 +283,7 @@ theorem lookupN_nestedRemove (c : α) (cs k' : List α) (n : Node α) :
   induction cs generalizing c k' n with
   | nil =>
     obtain ⟨v, ks⟩ := n
-    simp only [nestedRemove]
+    simp only [nestedRemove, gen_eraseEmptiedChild, gen_eraseLeafChild]
     cases hf : find c ks with
     | none =>
       simp only []
@@ -317,7 +319,7 @@ theorem lookupN_nestedRemove (c : α) (cs k' : List α) (n : Node α) :
           · rw [if_neg hk]; simp [find_replaceKey, hc]
   | cons c2 cs2 ih =>
     obtain ⟨v, ks⟩ := n
-    simp only [nestedRemove]
+    simp only [nestedRemove, gen_eraseEmptiedChild, gen_eraseLeafChild]
     cases hf : find c ks with
     | none =>
       simp only []
@@ -359,7 +361,11 @@ theorem lookupN_nestedRemove (c : α) (cs k' : List α) (n : Node α) :
 
 theorem decrementIndex_mk (vi : Nat) (v : Option Nat) (ks : List (α × Node α)) :
     decrementIndex vi (mk v ks) = mk (v.map (decIdx vi)) (decrementKids vi ks) := by
-  rw [decrementIndex]; rfl
+  rw [decrementIndex]
+  congr 1
+  cases v with
+  | none => rfl
+  | some i => simp only [Option.map_some, gen_decrementCond, decIdx, decide_eq_true_eq]
 
 theorem lookupN_decrementIndex (vi : Nat) (k : List α) (n : Node α) :
     lookupN k (decrementIndex vi n) = (lookupN k n).map (decIdx vi) := by
@@ -426,12 +432,12 @@ theorem norm_getN (q : List α) (p : Nat) (n : Node α) :
   induction q generalizing p n with
   | nil =>
     obtain ⟨v, ks⟩ := n
-    simp only [getN, norm, best_nil, val_mk]
+    simp only [getN, gen_getMissLength, norm, best_nil, val_mk]
     cases v <;> simp
   | cons c cs ih =>
     obtain ⟨v, ks⟩ := n
     rw [best_cons]
-    simp only [getN]
+    simp only [getN, gen_getMissLength, gen_getNextIndex, gen_getFallbackLength]
     cases hf : find c ks with
     | none => simp only [Option.bind_none, norm]; cases v <;> simp
     | some ch =>
@@ -707,14 +713,14 @@ theorem nestedRemove_not_dead (c : α) (cs : List α) (n : Node α) (hn : ¬ Dea
   obtain ⟨v, ks⟩ := n
   cases cs with
   | nil =>
-    simp only [nestedRemove] at hf ⊢
+    simp only [nestedRemove, gen_eraseEmptiedChild, gen_eraseLeafChild] at hf ⊢
     cases hfind : find c ks with
     | none => simpa [hfind] using hn
     | some leaf =>
       simp only [hfind] at hf ⊢
       exact not_dead_of_flag hf
   | cons c2 cs2 =>
-    simp only [nestedRemove] at hf ⊢
+    simp only [nestedRemove, gen_eraseEmptiedChild, gen_eraseLeafChild] at hf ⊢
     cases hfind : find c ks with
     | none => simpa [hfind] using hn
     | some leaf =>
@@ -725,7 +731,7 @@ theorem wf_nestedRemove (c : α) (cs : List α) (n : Node α) (h : WF n) : WF (n
   induction cs generalizing c n with
   | nil =>
     obtain ⟨v, ks⟩ := n
-    simp only [nestedRemove]
+    simp only [nestedRemove, gen_eraseEmptiedChild, gen_eraseLeafChild]
     cases hfind : find c ks with
     | none => exact h
     | some leaf =>
@@ -749,7 +755,7 @@ theorem wf_nestedRemove (c : α) (cs : List α) (n : Node α) (h : WF n) : WF (n
             exact wf_same_kids hleaf
   | cons c2 cs2 ih =>
     obtain ⟨v, ks⟩ := n
-    simp only [nestedRemove]
+    simp only [nestedRemove, gen_eraseEmptiedChild, gen_eraseLeafChild]
     cases hfind : find c ks with
     | none => exact h
     | some leaf =>
